@@ -128,4 +128,146 @@ theorem secGetData_lazy_eq_eager (c : Cls) (enc : Enc) (tr : List Trans) (ls ls'
     rw [secObs_getApply, secObs_getApply]
     rfl
 
+/-! ### interleavings of requests and releases on one section -/
+
+/-- what can happen to one lazily loaded section while the stream stays open: its data is
+    requested, its data is released, or *anything else* moves the stream / changes its error state
+    (reads for other sections and segments, failed reads, …) -/
+inductive DataOp
+  | request
+  | release
+  | disturb (pos : Nat) (eof fail : Bool) (gcount : Nat)
+  deriving Repr
+
+def disturbSt (ls : LoadSt) (p : Nat) (e f : Bool) (g : Nat) : LoadSt :=
+  { ls with st := { ls.st with pos := p, eof := e, fail := f, gcount := g } }
+
+def runSecOps (c : Cls) (tr : List Trans) : LoadSt → SecBuf → List DataOp → LoadSt × SecBuf
+  | ls, b, [] => (ls, b)
+  | ls, b, .request :: r => runSecOps c tr (secGetData c tr ls b).1 (secGetData c tr ls b).2 r
+  | ls, b, .release :: r => runSecOps c tr ls b.freeData r
+  | ls, b, .disturb p e f g :: r => runSecOps c tr (disturbSt ls p e f g) b r
+
+/-- a lazily loaded section whose data has not been requested yet -/
+def Fresh (b : SecBuf) : Prop := b.isLazy = true ∧ b.isLoaded = false ∧ b.canLoad = true ∧ b.data = none
+
+/-- the states a lazily loaded section `b` moves through: resident/decided (`secGetApply b o`), or
+    non-resident with a possibly updated `data_size` -/
+def SecInv (b : SecBuf) (o : SecOutcome) (b' : SecBuf) : Prop :=
+  b' = secGetApply b o ∨
+  ∃ ds, b' = { b with dataSize := ds } ∧
+    (ds = b.dataSize ∨ ((o.apply b).2 = true ∧ ds = (secGetApply b o).dataSize))
+
+theorem getApply_noop (b : SecBuf) (o : SecOutcome) (hb : Fresh b) :
+    (!(secGetApply b o).isLoaded && (secGetApply b o).canLoad) = false := by
+  obtain ⟨_, h2, h3, _⟩ := hb
+  rcases o with _ | _ | d | _ | (_ | _) <;> simp [secGetApply, SecOutcome.apply, h2, h3]
+
+theorem getApply_ds (b : SecBuf) (o : SecOutcome) (ds : BitVec 64)
+    (h : ds = b.dataSize ∨ ((o.apply b).2 = true ∧ ds = (secGetApply b o).dataSize)) :
+    secGetApply { b with dataSize := ds } o = secGetApply b o := by
+  rcases h with h | ⟨h1, h2⟩
+  · subst h; rfl
+  · rcases o with _ | _ | d | _ | (_ | _) <;>
+      simp_all [secGetApply, SecOutcome.apply]
+
+theorem free_inv (b : SecBuf) (o : SecOutcome) (hb : Fresh b) (b' : SecBuf) (h : SecInv b o b') :
+    SecInv b o b'.freeData := by
+  obtain ⟨h1, h2, h3, h4⟩ := hb
+  rcases h with h | ⟨ds, h, hds⟩
+  · subst h
+    rcases o with _ | _ | d | _ | (_ | _)
+    · left; cases b; simp_all [secGetApply, SecOutcome.apply, SecBuf.freeData]
+    · left; cases b; simp_all [secGetApply, SecOutcome.apply, SecBuf.freeData]
+    · right; refine ⟨b.size, ?_, Or.inr ⟨rfl, rfl⟩⟩
+      cases b; simp_all [secGetApply, SecOutcome.apply, SecBuf.freeData]
+    · right; refine ⟨0, ?_, Or.inr ⟨rfl, rfl⟩⟩
+      cases b; simp_all [secGetApply, SecOutcome.apply, SecBuf.freeData]
+    · left; cases b; simp_all [secGetApply, SecOutcome.apply, SecBuf.freeData]
+    · right; refine ⟨b.dataSize, ?_, Or.inl rfl⟩
+      cases b; simp_all [secGetApply, SecOutcome.apply, SecBuf.freeData]
+  · right; refine ⟨ds, ?_, hds⟩
+    subst h
+    cases b; simp_all [SecBuf.freeData]
+
+/-- the outcome a fresh section `b` gets on any stream over the bytes `D` of kind `K` -/
+def outcomeOf (c : Cls) (tr : List Trans) (D : Bytes) (K : StreamKind) (b : SecBuf) : SecOutcome :=
+  secOutcome c tr { data := D, kind := K } b.stype b.size b.offset b.streamSize true
+
+/-- a request in any state of the invariant lands in the one decided state -/
+theorem request_inv (c : Cls) (tr : List Trans) (ls : LoadSt) (b b' : SecBuf) (hb : Fresh b)
+    (h : SecInv b (outcomeOf c tr ls.st.data ls.st.kind b) b') :
+    (secGetData c tr ls b').2 = secGetApply b (outcomeOf c tr ls.st.data ls.st.kind b) := by
+  rw [secGetData_snd]
+  rcases h with h | ⟨ds, h, hds⟩
+  · subst h; rw [getApply_noop b _ hb]; simp
+  · subst h
+    obtain ⟨h1, h2, h3, h4⟩ := hb
+    have hc : (!({ b with dataSize := ds } : SecBuf).isLoaded && ({ b with dataSize := ds } : SecBuf).canLoad) = true := by
+      simp [h2, h3]
+    rw [if_pos hc]
+    have e : secOutcome c tr ls.st b.stype b.size b.offset b.streamSize b.data.isNone =
+        outcomeOf c tr ls.st.data ls.st.kind b := by
+      rw [h4]
+      exact secOutcome_indep c tr ls.st { data := ls.st.data, kind := ls.st.kind } rfl rfl _ _ _ _ _
+    show secGetApply _ (secOutcome c tr ls.st b.stype b.size b.offset b.streamSize b.data.isNone) = _
+    rw [e]
+    exact getApply_ds b _ ds hds
+
+theorem runSecOps_inv (c : Cls) (tr : List Trans) (D : Bytes) (K : StreamKind) (b : SecBuf) (hb : Fresh b) :
+    ∀ (ops : List DataOp) (ls : LoadSt) (b' : SecBuf), ls.st.data = D → ls.st.kind = K →
+      SecInv b (outcomeOf c tr D K b) b' →
+      (runSecOps c tr ls b' ops).1.st.data = D ∧ (runSecOps c tr ls b' ops).1.st.kind = K ∧
+      SecInv b (outcomeOf c tr D K b) (runSecOps c tr ls b' ops).2 := by
+  intro ops
+  induction ops with
+  | nil => intro ls b' hd hk h; exact ⟨hd, hk, h⟩
+  | cons op r ih =>
+    intro ls b' hd hk h
+    cases op with
+    | request =>
+      simp only [runSecOps]
+      apply ih
+      · simp [hd]
+      · simp [hk]
+      · left; subst hd; subst hk; exact request_inv c tr ls b b' hb h
+    | release => simp only [runSecOps]; exact ih ls _ hd hk (free_inv b _ hb b' h)
+    | disturb p e f g => simp only [runSecOps]; exact ih _ b' hd hk h
+
+theorem secLoad_lazy_fresh (c : Cls) (enc : Enc) (tr : List Trans) (ls : LoadSt) (hdrOff : Int) (idx : Nat) :
+    Fresh (secLoad c enc tr ls hdrOff true idx).2 := by
+  rw [secLoad_eq]; simp only []
+  split <;> simp [Fresh, secInit]
+
+/-- **release then request restores the same observations** (stream in any state at both requests) -/
+theorem freeData_getData (c : Cls) (tr : List Trans) (ls1 ls2 : LoadSt) (b : SecBuf) (hb : Fresh b)
+    (hd : ls2.st.data = ls1.st.data) (hk : ls2.st.kind = ls1.st.kind) :
+    (secGetData c tr ls2 (secGetData c tr ls1 b).2.freeData).2 = (secGetData c tr ls1 b).2 := by
+  have h0 : SecInv b (outcomeOf c tr ls1.st.data ls1.st.kind b) b := Or.inr ⟨b.dataSize, rfl, Or.inl rfl⟩
+  have h1 := request_inv c tr ls1 b b hb h0
+  have h2 : SecInv b (outcomeOf c tr ls1.st.data ls1.st.kind b) (secGetData c tr ls1 b).2 := Or.inl h1
+  have h3 := free_inv b _ hb _ h2
+  rw [← hd, ← hk] at h3
+  rw [request_inv c tr ls2 b _ hb h3, hd, hk, h1]
+
+/-- **any interleaving** : a lazily loaded section, driven through any list of requests, releases
+    and stream disturbances and then asked for its data, shows what the eagerly loaded section
+    shows -/
+theorem interleaving_eq (c : Cls) (enc : Enc) (tr : List Trans) (ls ls1 : LoadSt) (hdrOff : Int)
+    (idx : Nat) (ops : List DataOp) (hd : ls1.st.data = ls.st.data) (hk : ls1.st.kind = ls.st.kind) :
+    let x := runSecOps c tr ls1 (secLoad c enc tr ls hdrOff true idx).2 ops
+    secObs (secGetData c tr x.1 x.2).2 = secObs (secLoad c enc tr ls hdrOff false idx).2 := by
+  intro x
+  have hb := secLoad_lazy_fresh c enc tr ls hdrOff idx
+  have h0 : SecInv (secLoad c enc tr ls hdrOff true idx).2
+      (outcomeOf c tr ls.st.data ls.st.kind (secLoad c enc tr ls hdrOff true idx).2)
+      (secLoad c enc tr ls hdrOff true idx).2 := Or.inr ⟨_, rfl, Or.inl rfl⟩
+  obtain ⟨g1, g2, g3⟩ := runSecOps_inv c tr ls.st.data ls.st.kind _ hb ops ls1 _ hd hk h0
+  rw [← g1, ← g2] at g3
+  have h1 := request_inv c tr x.1 _ x.2 hb g3
+  rw [h1, g1, g2]
+  have h2 := request_inv c tr ls _ _ hb h0
+  rw [← h2]
+  exact secGetData_lazy_eq_eager c enc tr ls ls hdrOff idx rfl rfl
+
 end ElfioVerif.C15
